@@ -39,9 +39,9 @@ PLAN = {
              title="hierarchy"),
  "C08": dict(suite=True, machines=["histN", "histA", "histS"], profile=PLAIN, mc=MC_PLAIN5, invariants=["P_C08"],
              title="history policies"),
- "C09": dict(suite=True, machines=["pseudo", "histS"], profile=PLAIN, mc=MC_PLAIN5, invariants=["P_C09"],
+ "C09": dict(suite=True, machines=["pseudo", "histS", "complx"], profile=PLAIN, mc=MC_PLAIN5, invariants=["P_C09"],
              title="explicit entry, fork, entry and exit points"),
- "C10": dict(machines=["compl", "complh"], profile=dict(DEFER, subs=0.3), mc=dict(MC_QUEUE, budget=0, maxcalls=4, dirops=(), direvs=()), invariants=["P_C10"],
+ "C10": dict(machines=["compl", "complh", "complx"], profile=dict(DEFER, subs=0.3), mc=dict(MC_QUEUE, budget=0, maxcalls=4, dirops=(), direvs=()), invariants=["P_C10"],
              title="completion transitions"),
  "C11": dict(machines=["block"], profile=dict(QUEUE, subs=0.3), mc=dict(MC_PLAIN, maxcalls=4), invariants=["P_C11"],
              title="terminate / interrupt"),
